@@ -46,6 +46,12 @@ def step (args : List String) : String :=
       let p : CommitProof := { root := rt, hashes := hs, length := len, indices := [idx] }
       s!"cmp={showCmp (compare l p)} vl={showOB (verifyLeaves p l).1}"
     | _, _, _, _, _ => "bad-op"
+  | "page" :: rest =>
+    match natArg rest "n", natArg rest "offset", natArg rest "limit" with
+    | some n, some o, some lim =>
+      let (ix, off) := scanPage n o lim
+      s!"page={",".intercalate (ix.map toString)} offset={off}"
+    | _, _, _ => "bad-op"
   | "scan" :: rest =>
     match (argOf rest "local").bind parseLeaves, (argOf rest "remote").bind parseLeaves with
     | some l, some r =>
